@@ -3,6 +3,7 @@ package broker
 import (
 	"context"
 	"fmt"
+	"runtime"
 	"sort"
 	"time"
 
@@ -29,6 +30,7 @@ type SendObs struct {
 	Survivors []rt.Goroutine
 	Returned  bool
 	Dump      string
+	gBefore   int
 }
 
 var sendCtr int64
@@ -53,6 +55,7 @@ func (w *World) DoSend(t string, cancelAt int, yield *rt.Rand, yieldPct int) *Se
 	if cancelAt == -1 {
 		cancel()
 	}
+	o.gBefore = runtime.NumGoroutine()
 	o.T0 = time.Now()
 	o.Call = rt.Tick()
 	o.Status, o.Err = w.B.Send(ctx, eventlogger.EventType(t), o.Payload)
@@ -67,7 +70,22 @@ func (w *World) DoSend(t string, cancelAt int, yield *rt.Rand, yieldPct int) *Se
 }
 
 // Quiesce waits until every goroutine Send started is gone; survivors are kept.
+// Fast path: the process-wide goroutine count is back at its value before the
+// Send and no recording node is running (valid for the single-threaded drivers
+// that use DoSend); otherwise the goroutine dump decides.
 func (o *SendObs) Quiesce(w *World, d time.Duration) {
+	for i := 0; i < 2000; i++ {
+		if runtime.NumGoroutine() <= o.gBefore && w.Log.Running() == 0 {
+			o.Survivors = nil
+			o.Entries = w.Log.ForSend(o.SendID)
+			return
+		}
+		if i < 100 {
+			runtime.Gosched()
+		} else {
+			time.Sleep(20 * time.Microsecond)
+		}
+	}
 	o.Survivors = rt.WaitNoGoroutine(d, "eventlogger.(*graph).process", "eventlogger.(*graph).doProcess")
 	o.Entries = w.Log.ForSend(o.SendID)
 }
